@@ -185,6 +185,24 @@ def rule_file1_input(prog, rep, tier, entry="sync_properties.sync_properties", s
             return
         seen.add(key)
         t = derived(fi.node, tainted_params)
+
+        def hot(e):
+            """names of e that carry the input filename *here*: a name re-bound by an enclosing `with .. as name` holds what that
+            item opened (two handles in a row are both called `f`; the second is not the first)"""
+            out = set()
+            for nm in names_in(e) & t:
+                p_, decided = getattr(e, "_parent", None), None
+                while p_ is not None and p_ is not fi.node:
+                    if isinstance(p_, (ast.With, ast.AsyncWith)):
+                        for it in p_.items:
+                            if it.optional_vars is not None and nm in names_in(it.optional_vars):
+                                decided = bool(names_in(it.context_expr) & (t - {nm}))
+                        if decided is not None:
+                            break
+                    p_ = getattr(p_, "_parent", None)
+                if decided is None or decided:
+                    out.add(nm)
+            return out
         for node in ast.walk(fi.node):
             if not isinstance(node, ast.Call):
                 continue
@@ -192,7 +210,7 @@ def rule_file1_input(prog, rep, tier, entry="sync_properties.sync_properties", s
                 kind, _ = open_mode(prog, node)
                 p = node.args[0] if node.args else kwarg(node, "file")
                 n_sites[0] += 1
-                if kind != "read" and p is not None and names_in(p) & t:
+                if kind != "read" and p is not None and hot(p):
                     rep.violation(Finding(
                         "FILE-1", fi.qualname, "input-path-to-write-open",
                         "a value derived from %s.%s reaches the path of a write-capable open(): %s (call chain: %s)"
@@ -205,14 +223,14 @@ def rule_file1_input(prog, rep, tier, entry="sync_properties.sync_properties", s
             en = prog.ext_name(node.func, node) if isinstance(node.func, (ast.Name, ast.Attribute)) else None
             if en in WRITE_EXT:
                 n_sites[0] += 1
-                if any(names_in(a) & t for a in node.args):
+                if any(hot(a) for a in node.args):
                     rep.violation(Finding("FILE-1", fi.qualname, "input-path-to-" + en,
                                           "a value derived from %s reaches %s: %s" % (source_param, en, src(node)), loc(prog, node)))
                 continue
             for tgt in prog.resolve_expr_fn(node.func, node):
                 if isinstance(tgt, FunctionInfo):
                     amap = call_arg_map(node, tgt)
-                    tp = {p for p, a in amap.items() if names_in(a) & t}
+                    tp = {p for p, a in amap.items() if hot(a)}
                     if tp:
                         go(tgt, tp, chain + [fi.qualname])
 
